@@ -18,6 +18,9 @@ var registry = map[string]*Property{}
 func register(id string, run func(c *engine.Check, tier string)) {
 	registry[id] = &Property{ID: id, Run: func(c *engine.Check, tier string) {
 		resolveFieldAnchors(c)
+		for _, n := range engine.CanonicalNotes {
+			c.Note("renamed since the pinned tree — %s", n)
+		}
 		run(c, tier)
 	}}
 }
